@@ -322,6 +322,86 @@ def create_ir_problems(res):
     return pr
 
 
+# ------------------------------------------------------------------------------------------------ operand forms (C12, C04)
+OPERAND_FORMS = {
+    "x64-att": ["movq {t}(%rip), %rax", "leaq {t}(%rip), %rax", "movq ${t}, %rax", "call {t}", "jmp {t}", "je {t}", ".quad {t}", "addl $1, {t}(%rip)", "cmpb $0, {t}(%rip)"],
+    "x64-intel": ["mov rax, [rip + {t}]", "lea rax, [rip + {t}]", "call {t}", "jmp {t}", "add dword ptr [rip + {t}], 1"],
+    "ia32": ["movl {t}, %eax", "movl ${t}, %eax", "leal {t}, %eax", "call {t}", "jmp {t}", ".long {t}", "addl $1, {t}"],
+    "arm64": ["adrp x0, {t}", "add x0, x0, :lo12:{t}", "ldr x0, [x0, :lo12:{t}]", "ldr x2, {t}", "ldr w2, {t}", "ldrsw x2, {t}", "adr x0, {t}", "bl {t}", "b {t}", "b.eq {t}", "cbz x0, {t}",
+              ".quad {t}", "adrp x0, :got:{t}", "ldr x0, [x0, :got_lo12:{t}]"],
+    "mips32": ["lui $t0, %hi({t})", "addiu $t0, $t0, %lo({t})", "lw $t1, %lo({t})($t0)", "sw $t1, %lo({t})($t0)", "jal {t}", "j {t}", ".word {t}", "lw $t9, %got({t})($gp)"],
+}
+
+
+def operand_forms(tier, seed):
+    """one symbolic operand, written with and without an addend: "each symbolic operand yields one expression at the operand's offset with
+    the right symbol, addend, attributes and size" -- the addend written in the text changes the expression's addend and NOTHING else
+    (symbol, attributes, position, size), for every way the ISA has of naming a symbol in an operand (relocation specifiers included)"""
+    def run():
+        logging.getLogger("gtirb_rewriting").setLevel(logging.CRITICAL)
+        br = BResult()
+        br.bound = "operand forms of contracts/c12_13.py:OPERAND_FORMS (%s) x target = module symbol / local label defined later x addend in {0, +8, -4, +0x104}" % ", ".join(
+            "%s: %d" % (k, len(v)) for k, v in OPERAND_FORMS.items())
+        br.clauses = ["C12/operand/one-expression-at-the-operands-position", "C12/operand/addend-is-the-addend-written", "C12/operand/an-addend-changes-nothing-but-the-addend",
+                      "C12/operand/no-crash-with-an-addend"]
+        distinct = set()
+        for isa_key, forms in OPERAND_FORMS.items():
+            isa, ff, syntax, cs = ISAS[isa_key]
+            for form in forms:
+                for target in ("modsym", "Lloc"):
+                    base = None
+                    for addend in (0, 8, -4, 0x104):
+                        t = target if addend == 0 else "%s%+d" % (target, addend)
+                        text = form.format(t=t) + ("\nnop\nLloc:\nnop" if target == "Lloc" else "")
+                        if isa_key == "mips32":
+                            text = ".set noreorder\n" + text
+                        ir, m, modsym = mk_module(isa, ff)
+                        a = Assembler(m)
+                        br.cases += 1
+                        distinct.add((isa_key, form, target, addend))
+                        desc = {"isa": isa_key, "text": text.splitlines()}
+                        try:
+                            a.assemble(text, syntax)
+                            res = a.finalize()
+                        except Exception as e:       # noqa
+                            res = None
+                            err = "%s: %s" % (type(e).__name__, str(e)[:80])
+                        if addend == 0:
+                            if res is None:
+                                break                 # this way of writing the operand is not supported for this target: nothing to compare
+                        elif res is None:
+                            # a loud refusal (UnsupportedAssemblyError: e.g. "sym - 4", or an offset on a MIPS jump target) makes the text
+                            # unsupported, which the property leaves alone; anything else that goes wrong only with the addend is reported
+                            if "out of range" in err or "fixup value" in err or err.startswith("UnsupportedAssemblyError"):
+                                continue
+                            br.failures.append({"clause": "C12/operand/no-crash-with-an-addend", "witness": desc, "detail": err})
+                            continue
+                        sec = res.text_section
+                        want_sym = modsym if target == "modsym" else next((x for x in res.symbols if x.name == "Lloc"), None)
+                        ex = [(o, e) for o, e in sec.symbolic_expressions.items() if want_sym in list(e.symbols)]
+                        if len(ex) != 1 or len(sec.symbolic_expressions) != 1:
+                            br.failures.append({"clause": "C12/operand/one-expression-at-the-operands-position", "witness": desc, "detail": "%d expressions (%d name the symbol)" % (len(sec.symbolic_expressions), len(ex))})
+                            continue
+                        off, e = ex[0]
+                        got_add = getattr(e, "offset", None)
+                        view = (type(e).__name__, off, sorted(x.name for x in e.attributes), sec.symbolic_expression_sizes.get(off), len(bytes(sec.data)))
+                        if addend == 0:
+                            base = view
+                            if got_add != 0:
+                                br.failures.append({"clause": "C12/operand/addend-is-the-addend-written", "witness": desc, "detail": "addend %s, wrote none" % got_add})
+                            continue
+                        if got_add != addend:
+                            br.failures.append({"clause": "C12/operand/addend-is-the-addend-written", "witness": desc, "detail": "addend %s, wrote %+d" % (got_add, addend)})
+                        if base is not None and view != base:
+                            br.failures.append({"clause": "C12/operand/an-addend-changes-nothing-but-the-addend", "witness": desc,
+                                                "detail": "without addend (kind, offset, attributes, size, bytes) = %s, with %+d: %s" % (base, addend, view)})
+                    if len(br.samples) < 3:
+                        br.samples.append({"isa": isa_key, "form": form})
+        br.nontrivial = len(distinct)
+        return br
+    return run
+
+
 def c12_bounded(tier, seed):
     def run():
         logging.getLogger("gtirb_rewriting").setLevel(logging.CRITICAL)
@@ -473,7 +553,7 @@ def c13_bounded(tier, seed):
     def run():
         logging.getLogger("gtirb_rewriting").setLevel(logging.CRITICAL)
         br = BResult()
-        br.bound = "x64 AT&T: a patch with a temporary label assembled 1..5 times with distinct suffixes; every split of 9 programs (<= 6 lines; labels in the middle, at the very start, stacked, before data, in a second section) into chunks at line boundaries"
+        br.bound = "x64 AT&T: a patch with a temporary label assembled 1..5 times with distinct suffixes; every registered ABI: a patch with a label carrying that ABI's temporary prefix and one with a directional label, assembled twice; every split of 9 programs (<= 6 lines; labels in the middle, at the very start, stacked, before data, in a second section) into chunks at line boundaries"
         br.clauses = ["C13/repeated-patch-never-yields-two-symbols-with-one-name", "C13/no-copy-captures-another-copys-label",
                       "C13/chunked-assembly-equals-whole-assembly", "C13/chunked-assembly-equals-whole-assembly/boundary-inside-a-non-text-section",
                       "C13/existing-name-binds-to-the-module-symbol-object", "C13/defining-an-existing-name-is-refused-across-patches-of-one-rewrite"]
@@ -496,6 +576,36 @@ def c13_bounded(tier, seed):
                     s.module = m
             if len(set(names)) != len(names):
                 br.failures.append({"clause": "C13/repeated-patch-never-yields-two-symbols-with-one-name", "witness": {"copies": n}, "detail": str(names)})
+        # ... on every ABI, with the prefix THAT ABI gives temporary labels (".L" on most, "L" on IA32 PE, "$" on MIPS32) and with the
+        # directional labels ("1:" / "1f") the assembler names itself
+        from gtirb_rewriting.abi import ABI as _ABI, _ABIS as _ALL
+        for (isa_, ff_), abi_ in sorted(_ALL.items(), key=lambda kv: (kv[0][0].name, kv[0][1].name)):
+            ir, m, modsym = mk_module(isa_, ff_)
+            pref = abi_.temporary_label_prefix()
+            jmp = {"X64": "jmp %s", "IA32": "jmp %s", "ARM64": "b %s", "MIPS32": ".set noreorder\nj %s\nnop"}[isa_.name]
+            for lab, ref in ((pref + "skip", pref + "skip"), ("1", "1f")):
+                text = (jmp % ref) + "\nnop\n" + lab + ":\nnop"
+                names, desc = [], {"isa": isa_.name, "format": ff_.name, "temporary label prefix": pref, "patch": text.splitlines(), "suffixes": ["_1", "_2"]}
+                try:
+                    for i in range(2):
+                        a = Assembler(m, temp_symbol_suffix="_%d" % (i + 1))
+                        a.assemble(text, X86Syntax.ATT)
+                        res = a.finalize()
+                        br.cases += 1
+                        labs = [s_ for s_ in res.symbols]
+                        names += [s_.name for s_ in labs]
+                        tg = [e.target for e in res.cfg if e.label.type.name == "Branch"]
+                        if len(labs) != 1 or not tg or tg[0] is not labs[0].referent:
+                            br.failures.append({"clause": "C13/no-copy-captures-another-copys-label", "witness": dict(desc, copy=i), "detail": "the jump does not target this copy's label (%d labels)" % len(labs)})
+                        if labs and not labs[0].name.endswith("_%d" % (i + 1)):
+                            br.failures.append({"clause": "C13/repeated-patch-never-yields-two-symbols-with-one-name", "witness": dict(desc, copy=i), "detail": "temporary label %s does not carry this copy's suffix" % labs[0].name})
+                        for s_ in res.symbols:
+                            s_.module = m
+                except Exception as ex:      # noqa
+                    br.failures.append({"clause": "C13/repeated-patch-never-yields-two-symbols-with-one-name", "witness": desc, "detail": "%s: %s" % (type(ex).__name__, str(ex)[:100])})
+                    continue
+                if len(set(names)) != len(names):
+                    br.failures.append({"clause": "C13/repeated-patch-never-yields-two-symbols-with-one-name", "witness": desc, "detail": str(names)})
         progs = ["nop\nLab:\npushq %rax\njmp Lab", "call modsym\nnop\nret", "pushq %rax\nA1:\nje A1\n.byte 1, 2\nnop", "movq modsym(%rip), %rax\nB1:\nnop\njmp B1\nret",
                  # labels at the very start of the text (their block is still empty when the next chunk arrives), stacked labels,
                  # a label right before data directives, a leading label in a data section
@@ -628,6 +738,7 @@ def c13_bounded(tier, seed):
 
 def jobs_c12(tier="quick", seed=0):
     yield Job("C12/symbol_lookup", symbol_lookup_harness, kind="E", func="gtirb_rewriting.assembler.assembler:_Streamer._symbol_lookup/_resolve_symbol", expect_cover=("enumerated",))
+    yield Job("C12/operand-forms-bounded", operand_forms(tier, seed), kind="B", func="gtirb_rewriting.assembler.assembler:_Streamer._fixup_to_symbolic_operand/_mcexpr_to_symbolic_operand")
     yield Job("C12/assembler-vs-capstone-bounded", c12_bounded(tier, seed), kind="B", func="gtirb_rewriting.assembler.assembler:Assembler")
 
 
